@@ -265,12 +265,24 @@ class UAIReader(object):
             model.add_nodes_from(self.variables)
             model.add_edges_from(self.edges)
 
+            # The writer lists a function's scope as the reversed parents followed
+            # by the child; recover the parent order of the table from it.
+            parsed = self.grammar.parseString(self.network)
+            parent_order = {}
+            for function in range(0, self.no_functions):
+                function_variables = parsed["fun_" + str(function)]
+                if isinstance(function_variables, int):
+                    function_variables = [function_variables]
+                parent_order["var_" + str(function_variables[-1])] = [
+                    "var_" + str(var) for var in function_variables[:-1]
+                ][::-1]
+
             tabular_cpds = []
             for child_var, values in self.tables:
                 states = int(self.domain[child_var])
                 values = np.fromiter(values, dtype=float)
                 values = values.reshape(states, values.size // states)
-                parents = list(model.predecessors(child_var))
+                parents = parent_order[child_var]
                 if len(parents) == 0:
                     tabular_cpds.append(TabularCPD(child_var, states, values))
                 else:
